@@ -329,12 +329,14 @@ def execute(config, chooser):
     _, before = _get_global_publisher_and_observers()
     legacy_before = list(tlog.theLogPublisher.observers)
     reactor.arm(chooser, max_interrupts=1, ties=True)
+    started_at = reactor.seconds()
     try:
         try:
             case.run(result)
             how = ("returned",)
         except BaseException as e:
             how = ("raised", type(e).__name__, str(e)[:200])
+        ended_at = reactor.seconds() - started_at
         interrupt_at = None
         for e in reactor.log:
             if e[0] == "SIGINT":
@@ -372,6 +374,8 @@ def execute(config, chooser):
             else:
                 if m["timed_out"] is True and outcome != "addError":
                     problems.append(("timeout", "timeout %s elapsed before the stages completed but outcome is %s" % (timeout, outcome)))
+                if m["timed_out"] is True and abs(ended_at - timeout) > 1e-3:
+                    problems.append(("timeout-instant", "the run was given %s time units and timed out, but it ended at %s" % (timeout, ended_at)))
                 if m["clean"] is True and outcome != "addSuccess":
                     problems.append(("clean-not-success", "every stage completed cleanly within the timeout but outcome is %s" % outcome))
                 if m["clean"] is False and outcome == "addSuccess":
@@ -456,6 +460,8 @@ def configs(tier):
             out.append(("broken", True, True, timeout, 1, True))
         out.append(("broken", True, True, 100.0, 2, False))
         out.append(("plain", True, True, 100.0, "dup", False))
+        # no time to wait at all (only Deferreds that have fired already will do)
+        out.append(("plain", True, True, 0, 1, True))
         for suppress, store in ((True, False), (False, True), (False, False)):
             for variant in ("plain", "broken"):
                 for timeout in (1.5, 100.0):
@@ -468,6 +474,7 @@ def configs(tier):
                     out.append((variant, suppress, store, timeout, nc, nc == 1))
         out.append((variant, True, True, 100.0, "dup", False))
         out.append((variant, True, True, 1.5, "dup", False))
+        out.append((variant, True, True, 0, 1, True))
     return out
 
 
